@@ -208,6 +208,21 @@ CLAIMED["C08"] = dict(
          "the SVD.",
     ref="3 C08")
 
+CLAIMED["C10"] = dict(
+    category="other",
+    technique="symbolic folding of the THDM one-loop and fermionic two-loop functions over opaque loop-function "
+              "atoms, SM-limit substitution, and an exact independence test (d/dm_hSM of the rational function "
+              "vanishes identically); who-reads and factorisation rules for the bosonic part",
+    text="The SM-limit clause is decided as an algebraic cancellation: giving the light Higgs the SM Higgs mass "
+         "and couplings (y_f^h = m_f/v) by substitution, the folded one-loop (full and approximate) and "
+         "fermionic two-loop results are independent of the common Higgs mass identically, in every "
+         "data-dependent branch, for all parameter values; the charged part never reads light-Higgs data; the "
+         "only bosonic function that reads m_h carries cos(beta-alpha) as an overall factor; no static of the "
+         "THDM a_mu code depends on run-time data.",
+    note=TRUST + "Not decided: the decoupling rate with the heavy scale and the near-degenerate expansions used "
+         "there (numerical; seeded change C10-1 is not detected), the bosonic Yukawa/non-Yukawa parts.",
+    ref="3 C10")
+
 NOT_APPLICABLE = {
     "C03": "numerical agreement of one-loop results with an independent higher-precision evaluation over all "
            "parameter points: depends on eigen-decomposition values; no code-shape clause of its own "
